@@ -244,7 +244,10 @@ func TestBlockVerifyFixtures(t *testing.T) {
 			offers++
 			err := verify(o)
 			if err != nil && strings.HasPrefix(err.Error(), "PANIC") {
-				t.Fatalf("%s/%d tamper %s: %v", f.net, f.n, name, err)
+				out.Diverge(vh.Divergence{Key: "block-verify:crash:fixture:" + name,
+					What:  fmt.Sprintf("real %s block %d with %s altered makes SanityCheckNewHeight panic: %v", f.net, f.n, name, err),
+					Input: input, Expected: "rejected", Observed: err.Error()})
+				continue
 			}
 			if err == nil {
 				out.Diverge(vh.Divergence{Key: fmt.Sprintf("block-verify:accepted-tamper:%s:fixture-%s", name, class),
